@@ -372,6 +372,19 @@ class Repo:
         self.inlined = []
         self.opaque_callers = {}
         self.folded_temps = 0
+        self.callforms = 0
+        if inline:
+            from . import callforms as CF
+            kcf = CF.load_known()
+            if kcf is not None:
+                self.callforms = CF.normalise(self, kcf)
+                if self.callforms:
+                    for m in self.modules.values():
+                        ast.fix_missing_locations(m.tree)
+                        A.set_parents(m.tree)
+                        for n in ast.walk(m.tree):
+                            if not hasattr(n, "_module"):
+                                n._module = m
         if inline:
             self._fold_temps()
         if inline:
